@@ -336,7 +336,7 @@ def check(run, only_cases=None):
             at = {'anf': len(lines)}
             lines.append('c18.anf %s %s' % (cs, ser))
             at['haz'] = len(lines)
-            lines.append('c18.hazards %s %s' % (cs, ser))
+            lines.append('c18.hazards%s %s %s' % ('-mut' if _mutable(c) else '', cs, ser))
             at['frag'] = len(lines)
             lines.append('c18.frag %s %s' % (cs, ser))
             at['why'] = len(lines)
